@@ -102,7 +102,7 @@ func load(repo string, rels []string, specDir string, extras ...map[string]pkgEx
 		}
 	}
 	eng := &Engine{prog: prog, pkgs: map[string]*ssa.Package{}, contracts: map[*ssa.Function]*FuncContract{}, cfuncs: map[string]*ssa.Function{},
-		closed: map[string][]types.Type{}, specPure: map[*ssa.Function]bool{}, repo: repo, modulePrefix: modulePath, defined: map[string]bool{}, trustedUsed: map[string]bool{}, ifConvert: true}
+		closed: map[string][]types.Type{}, specPure: map[*ssa.Function]bool{}, repo: repo, modulePrefix: modulePath, defined: map[string]bool{}, trustedUsed: map[string]bool{}, contractsUsed: map[string]bool{}, ifConvert: true}
 	ld.eng = eng
 	packages.Visit(pkgs, nil, func(p *packages.Package) { eng.loadedPkgs = append(eng.loadedPkgs, p) })
 	for _, p := range prog.AllPackages() {
